@@ -35,7 +35,8 @@ Definition accepts (w : world) (x : tlt) : Prop :=
 Definition stable (w w' : world) : Prop :=
   World.tl w' = World.tl w /\ tkinds w' = tkinds w /\ tlens w' = tlens w
   /\ consume w' = consume w /\ random w' = random w /\ repeat w' = repeat w /\ single w' = single w
-  /\ (script w = [] -> script w' = []) /\ (a_fresh w = false -> a_fresh w' = false).
+  /\ (script w = [] -> script w' = []) /\ (a_fresh w = false -> a_fresh w' = false)
+  /\ (a_atf_done w = false -> a_atf_done w' = false).
 
 (* record extensionality for worlds *)
 Lemma world_ext (a b : world) :
